@@ -120,11 +120,20 @@ func ZZ_C12_Rejections() {
 		return
 	}
 	before := zzSnap(ue, rg)
+	ueBefore := vx.Snapshot(ue)
+	ctxBefore := vx.Snapshot(chf_context.GetSelf())
 
 	usage, _ := zzUsage("u0", rg, 1)
 	zzSmallUsage(&usage)
 	req := models.ChfConvergedChargingChargingDataRequest{InvocationSequenceNumber: vx.Int32("seq"),
 		MultipleUnitUsage: []models.ChfConvergedChargingMultipleUnitUsage{usage}}
+	// the body may also be a bare "keep-alive" (no usage, no trigger) or carry a trigger
+	switch vx.Choice("body", 3) {
+	case 1:
+		req.MultipleUnitUsage = nil
+	case 2:
+		req.Triggers = []models.ChfConvergedChargingTrigger{zzTrigger("trigger.kind")}
+	}
 	if vx.Choice("carriesNotifyUri", 2) == 1 {
 		req.NotifyUri = "http://elsewhere.example/" + vx.String("otherNotify", 1)
 	}
@@ -149,6 +158,10 @@ func ZZ_C12_Rejections() {
 	vx.Assert("no reservation change", after.reserved == before.reserved && after.reqNum == before.reqNum)
 	vx.Assert("no record change", after.nCdr == before.nCdr && after.nRecords == before.nRecords && after.nUsage == before.nUsage)
 	vx.Assert("registered notification URI unchanged", after.notifyUri == before.notifyUri)
+	// and nothing else either: every field, map entry and record of the
+	// subscriber context and of the global context is as it was
+	vx.Assert("the subscriber context is unchanged in every field", vx.SameAs(ueBefore, ue))
+	vx.Assert("the global context is unchanged in every field", vx.SameAs(ctxBefore, chf_context.GetSelf()))
 }
 
 // C12 (c): a recharge for a known subscriber sends exactly one
